@@ -30,7 +30,8 @@ RULE = ('case = host a with 1-3 connections (peers b0..b2, each a real daemon wi
         'entry\'s transforms in the configured order, the entry\'s mode, traffic selectors that lie inside the entry\'s and cover '
         'the acquired packet; the NEWSA soft lifetime is within entry lifetime + [0,5] s; an unknown index causes no datagram, '
         'no netlink request and no change. Non-trivial = >= 2 connections or >= 2 entries, or a restart / unknown index in the '
-        'script; distinct by (shape of the configuration, op kinds).')
+        'script; distinct by (shape of the configuration, op kinds). '
+        'Directed: an ACQUIRE at every point of an IKE_SA rekey (after 0..4 of its datagrams), the host being its initiator or its responder.')
 ASSUMPTIONS = [
     'policies of different entries are generated with disjoint selectors (a real kernel refuses duplicates)',
     'the reference observer decrypts the offer with DH secrets read from the recorded DH objects',
